@@ -33,6 +33,12 @@ func (vc *VC) execCall(fx *FuncCtx, fr *Frame, st *State, c *ssa.CallCommon, ins
 		return vc.callInvoke(fx, st, c, recv, args, rt, instr)
 	}
 	fv := vc.val(fx, fr, c.Value)
+	// ghost: number of direct calls of each named function made by the function under verification (callees'
+	// own calls are not counted: the counter is in nobody's frame)
+	if sf, ok := c.Value.(*ssa.Function); ok && fx != nil && fx.top {
+		kf := vc.reg.get("ghost:called:"+sf.Name(), 0, IntSort, nil)
+		st.heap[kf.Name] = Add(st.heapVar(kf), IntC(1))
+	}
 	return vc.callValue(fx, st, fv, args, c, rt, instr)
 }
 
@@ -696,7 +702,8 @@ func (vc *VC) havocArg(st *State, a Val, t types.Type, why string) {
 
 func (vc *VC) havocAll(st *State, why string) {
 	for _, name := range vc.reg.sorted() {
-		if vc.isStable(name) {
+		if vc.isStable(name) || strings.HasPrefix(name, "ghost:called:") {
+			// (the direct-call counters belong to the function under verification alone)
 			continue
 		}
 		ki := vc.reg.m[name]
@@ -1064,7 +1071,7 @@ func (vc *VC) goStmt(fx *FuncCtx, fr *Frame, st *State, g *ssa.Go) {
 }
 
 func isEventCounter(key string) bool {
-	for _, p := range []string{"ghost:sent", "ghost:last", "ghost:taken", "ghost:spawned"} {
+	for _, p := range []string{"ghost:sent", "ghost:last", "ghost:taken", "ghost:spawned", "ghost:called"} {
 		if strings.HasPrefix(key, p) {
 			return true
 		}
